@@ -501,7 +501,21 @@ def h_intvalue(case):
     return {'matches': m, 'value': str(_ENP._BaseNumberParser__get_int_value(m))}
 
 
+def h_choicematch(case):
+    """ChoiceExtractor.match_value over every start position (advisory binding of ChoiceMatch.tla)"""
+    from recognizers_choice.choice.recognizers_choice import ChoiceRecognizer
+    ex = ChoiceRecognizer('en-us').get_boolean_model('en-us').extractor
+    top = 0.0
+    for i in range(len(case['src'])):
+        try:
+            top = max(top, ex.match_value(list(case['src']), list(case['mat']), i))
+        except ZeroDivisionError:
+            return {'top': 'raised'}
+    return {'top': repr(round(top, 9))}
+
+
 _HANDLERS = {
+    'choicematch': h_choicematch,
     'intvalue': h_intvalue,
     'mergemech': h_mergemech,
     'unit_tables': h_unit_tables,
